@@ -318,6 +318,18 @@ def cache_cases(rng, n):
     return out
 
 
+def address_shared(ops, upto=None):
+    """were two different device instances announced from one address (before operation number `upto`)?"""
+    seen = {}
+    for pos, op in enumerate(ops):
+        if upto is not None and pos > upto:
+            break
+        if op[0] == 'iam':
+            if seen.setdefault(op[2], op[1]) != op[1]:
+                return True
+    return False
+
+
 def check_cache_history(ops):
     """implementation-only reading of 'device information learned from I-Am': after any history, acquire(address) /
     acquire(instance) give the limits of the LATEST I-Am of that device at that address; an Application constructed with
